@@ -591,6 +591,10 @@ func c16Child(ctx *runCtx, spec string) {
 		c16Serve(ctx)
 		return
 	}
+	if strings.HasPrefix(spec, "storm:") {
+		c16Storm(ctx, spec)
+		return
+	}
 	c16Drive(ctx, spec)
 }
 
@@ -635,7 +639,12 @@ func c16Run(ctx *runCtx) int {
 		}
 		batches = append(batches, batch{Spec: fmt.Sprintf("drive:shard=%d/%d:race=%d", i, n, r), Timeout: 40 * time.Minute})
 	}
-	runBatches(ctx, batches, n, func(b batch, res batchResult, tail string) {
+	sl := 3000
+	if ctx.tier == "thorough" {
+		sl = 30000
+	}
+	batches = append(batches, batch{Spec: fmt.Sprintf("storm:churners=6:askers=8:loops=%d:seed=%d", sl, ctx.seed), Timeout: 20 * time.Minute})
+	runBatches(ctx, batches, n+1, func(b batch, res batchResult, tail string) {
 		ctx.rep.Inconclusive(fmt.Sprintf("driver %s died (exit %d timeout=%v): %s", b.Spec, res.ExitCode, res.TimedOut, lastLines(tail, 8)))
 	})
 
